@@ -75,6 +75,18 @@ def byline(idx, rep, rid_sched, rid_yield, tier, scenarios=("plain", "plain2", "
             rid = rid_yield if aspect == "yields" else rid_sched
             rep.check(aspect not in bad, rid, f"{fi.file}::CsvPaths.next_by_line table {sc} {aspect}", bad.get(aspect, f"{len(rows)} paths"), K.where(fi, fi.node))
         rep.stats["table_rows"] = rep.stats.get("table_rows", 0) + len(rows)
+    if tier == "thorough" and "plain" in scenarios:
+        # three members x two lines
+        fi, rows = RM.byline_rows(idx, 2, "plain", members=3)
+        bad = {}
+        for agree, p in rows:
+            for aspect, ok, detail in RJ.byline_judge("plain", agree, p, 2):
+                if not ok:
+                    bad.setdefault(aspect, detail)
+        for aspect in aspects:
+            rid = rid_yield if aspect == "yields" else rid_sched
+            rep.check(aspect not in bad, rid, f"{fi.file}::CsvPaths.next_by_line table plain (3 members) {aspect}", bad.get(aspect, f"{len(rows)} paths"), K.where(fi, fi.node))
+        rep.stats["table_rows"] = rep.stats.get("table_rows", 0) + len(rows)
 
 
 def byline_collect(idx, rep, rid):
